@@ -291,6 +291,14 @@ func propC10(r *Run) {
 			w.deliverHTTP(p, "deliver")
 			return true
 		}
+		// first without advancing the clock: nothing in the agent needs time to answer a request
+		// (hooks run in the background, remote upgrades are asynchronous)
+		if stalled := w.quiesce(drainExtra); stalled != "" {
+			// requests are pending although everything runnable has run; does time resolve it?
+			if wedge := w.drain(drainExtra); wedge == "" {
+				r.Fail("stall/requests-wait-for-time", "upgrade mode %q, hooks=%v: requests were only answered after the clock advanced (a hook time limit or a timer delayed the agent); without advancing the clock: %s", mode, hooks != "", stalled)
+			}
+		}
 		if wedge := w.drain(drainExtra); wedge != "" {
 			if w.maxQ["update"] >= 10 {
 				r.Count("probe:update-queue-full-at-wedge")
